@@ -210,6 +210,25 @@ func monC04(c *drv.Ctx) {
 		cs.C.ObsMax("max_empty_reads_before_the_error", int64(k))
 	})
 
+	// (3c) one reader used for a very long time: more Release cycles than any 16-bit counter holds
+	c.Stage("many-release-cycles", 1, true, func(cs *drv.Case) {
+		if san.PoolShim {
+			return // the shim re-scans its ever-growing quarantine at every Release: quadratic in the harness
+		}
+		n := 66000
+		ops := make([]rOp, 0, 2*n+6)
+		for i := 0; i < n; i++ {
+			ops = append(ops, rOp{Kind: []int{opNext, opPeek, opReadBinary, opSkip}[i%4], N: 1 + i%3}, rOp{Kind: opRelease})
+		}
+		ops = append(ops, rOp{Kind: opNext, N: 5000}, rOp{Kind: opPeek, N: 9}, rOp{Kind: opRelease}, rOp{Kind: opNext, N: 3})
+		need := sumOps(ops) + 100
+		spec := srcSpec{Len: need, ErrAt: need, Sched: doubles.SchedBuf}
+		cs.Desc = M{"release_cycles": n, "source": spec.desc()}
+		runReaderHistory(cs, ops, spec, readerOpts{})
+		cs.Count(true, "manyrelease", cs.Idx)
+		cs.C.Obs("histories with more than 65536 Release cycles", 1)
+	})
+
 	// (3a') standard-library sources holding the whole stream (readers that also have Len/WriteTo/ReadByte, the
 	// iotest fragmenters, Limit/Multi/Section readers): histories that mix requests beyond the stream (which must
 	// fail and consume nothing) with requests the stream can still satisfy afterwards
